@@ -624,8 +624,9 @@ LEVEL_TEXT = (
     "syntactically valid, whose text components are Unicode scalar values (any of them, incl. every "
     "URL-special character), with any integer port, rendering never raises and parsing the rendered text "
     "gives back the same URL (query compared as a dict); the parse of an assembled string is componentwise "
-    "(no text moves); UTF-8 and percent coding round-trip for all scalar values; three defects of the "
-    "unchanged code are refuted by witness and excluded by the guard."
+    "(no text moves); UTF-8 and percent coding round-trip for all scalar values; the result of the round "
+    "trip is characterised for every URL of the domain, three defects of the unchanged code are refuted by "
+    "witness, and the guard is proved to exclude exactly the URLs that come back different."
 )
 LEVEL_NOTE = (
     "Trusted: Coq kernel; the hand transcription of url.py (source pin + generated constants obligation + "
